@@ -844,6 +844,13 @@ def external_probe_recipes(rng) -> list:
     for _ in range(2):
         nc = rng.choice([2, 3, 4])
         out.append(single(R.gen_frame(rng, lite, nc, "plain")["cols"], {"col_rel_width": [1] * nc}, rng.choice([8, 15])))
+    # figure documents: a genuine metafile, a raster image, an image without a readable size
+    for files in ([{"fmt": "emf_real", "w": 800, "h": 600, "seed": 1}], [{"fmt": "png", "w": 300, "h": 200, "seed": 2}],
+                  [{"fmt": "emf_real", "w": 640, "h": 480, "seed": 3}, {"fmt": "raw", "w": 10, "h": 10, "seed": 4}]):
+        out.append({"kind": "figure", "page": {}, "title": {"text": ["Figure probe"]}, "subline": None,
+                    "page_header": None, "page_footer": None, "footnote": None, "source": None,
+                    "figure": {"files": files, "kw": {"fig_width": 6.0, "fig_height": 4.0}},
+                    "dfs": [], "bodies": [], "headers": "default"})
     return out
 
 
@@ -1012,6 +1019,8 @@ def job(j: dict) -> dict:
         for r in plan["recipes"]:
             r["ambient"] = amb
     add_copy_ops(plan, core.rng_for(root, PROP, "copies", idx))
+    if core.derive(root, PROP, "braced", idx) % 5 == 0:
+        R.add_braced(plan["recipes"], idx)
     ncal = R.resolve_calibration(plan["recipes"], ws.setdefault("calib_cache", {}))
     refs = ws["refcache"].for_plan(plan)
     t0 = time.monotonic()
